@@ -280,7 +280,8 @@ def _episode(g, gs0, sup, ep, eo: EpisodeOut, clock, const, plan):
                     raise
                 except Exception as e:
                     eo.record_error = repr(e)[:300]
-        K.drain()
+        if eo.stopped:
+            K.drain()  # a stopped graph becomes quiescent; one that is left running ("ending: none") is not drained
         eo.trace = probes.take_trace()
     except km.SimAbort:
         st = K.stall
